@@ -344,7 +344,10 @@ func (e *env) finish(quiet, grace time.Duration, shutdown func()) (toks []string
 				break
 			}
 			if time.Now().After(dl) {
-				k, where := kafkaGoroutines()
+				k, where, parked := kafkaGoroutinesP()
+				if parked {
+					e.ft.add("parked-in-promise")
+				}
 				g := k - e.baseK
 				if g < 0 {
 					g = 0
